@@ -39,3 +39,25 @@ func VerifDoUVTransform(bits uint32, src []int16, dst []byte) { doUVTransform(bi
 
 // VerifNzCodeBits is nzCodeBits.
 func VerifNzCodeBits(nzCoeffs uint32, nz, dcNz int) uint32 { return nzCodeBits(nzCoeffs, nz, dcNz) }
+
+// The decoder's own loop-filter primitives (decode_frame.go).  kind: "s" simple
+// horizontal (mb edge), "si" simple horizontal inner, "26v"/"26h" macroblock
+// edge, "24v"/"24h" inner edge; n = samples along the edge (16 luma, 8 chroma).
+func VerifDecFilter(kind string, p []byte, base, bps, n, thresh, ithresh, hevThresh int) {
+	switch kind {
+	case "s":
+		simpleHFilter16At(p, base, bps, thresh)
+	case "si":
+		simpleHFilter16iAt(p, base, bps, thresh)
+	case "26v":
+		filterLoop26VAt(p, base, bps, n, thresh, ithresh, hevThresh)
+	case "26h":
+		filterLoop26At(p, base, bps, n, thresh, ithresh, hevThresh)
+	case "24v":
+		filterLoop24VAt(p, base, bps, n, thresh, ithresh, hevThresh)
+	case "24h":
+		filterLoop24HAt(p, base, bps, n, thresh, ithresh, hevThresh)
+	default:
+		panic("VerifDecFilter: unknown kind " + kind)
+	}
+}
